@@ -5,7 +5,12 @@
 
    The boolean [fx] selects the first-pulse decision:
      fx = false : the unchanged code,  `abs(last_pulse_time) < step_size * 1.0e-6`
-     fx = true  : the repaired code (fixes/C12-first-pulse-flag.diff), an explicit per-channel flag. *)
+     fx = true  : the repaired code (fixes/C12-first-pulse-flag.diff), an explicit per-channel flag.
+   The boolean [gx] selects the idle-gap decision `abs(start_time - last_pulse_time) > T`:
+     gx = false : T = step_size * 1.0e-6 of the instruction being placed (unchanged code)
+     gx = true  : T = time_resolution = 1.0e-14 * (latest end time of all instructions)
+                  (fixes/C12-idle-gap-time-resolution.diff).
+   Inside the loops the threshold is the function [gtl : step_size -> T]. *)
 From Coq Require Import List QArith Qabs Qround ZArith Bool.
 Import ListNotations.
 Open Scope Q_scope.
@@ -77,11 +82,14 @@ Fixpoint last_opt (l : list Q) : option Q :=
   | _ :: r => last_opt r
   end.
 
+(* threshold of the idle-gap test as a function of the step size of the instruction being placed *)
+Definition gap_tol (gx : bool) (res : Q) (step : Q) : Q := if gx then res else step * tol.
+
 (* inner loop of _concatenate_pulses for one channel.
    first : "no pulse has been placed on this channel yet" (only read when fx = true)
    last  : last_pulse_time;  ms : min_step_size (None = inf);  md : the variable pulse_mode
    result: (times appended, coefficients appended, min_step_size, pulse_mode) *)
-Fixpoint concat_chan (fx first : bool) (last : Q) (ms : option Q) (md : option mode)
+Fixpoint concat_chan (fx : bool) (gtl : Q -> Q) (first : bool) (last : Q) (ms : option Q) (md : option mode)
          (instrs : list pinstr) : option (list Q * list Q * option Q * option mode) :=
   match instrs with
   | [] => Some ([], [], ms, md)
@@ -93,7 +101,7 @@ Fixpoint concat_chan (fx first : bool) (last : Q) (ms : option Q) (md : option m
           let isfirst := if fx then first else Qlt_b (Qabs last) (step * tol) in
           let h_t := if isfirst then [0] else [] in
           let h_c := if isfirst then match m with Continuous => [0] | Discrete => [] end else [] in
-          match (if Qlt_b (step * tol) (Qabs (p_start i - last))
+          match (if Qlt_b (gtl step) (Qabs (p_start i - last))
                  then idle_tlist m (p_start i) last step else Some []) with
           | None => None
           | Some idl =>
@@ -101,7 +109,7 @@ Fixpoint concat_chan (fx first : bool) (last : Q) (ms : option Q) (md : option m
               match last_opt ex with
               | None => None                                   (* execution_time[-1] *)
               | Some last' =>
-                  match concat_chan fx false last' ms' (Some m) rest with
+                  match concat_chan fx gtl false last' ms' (Some m) rest with
                   | None => None
                   | Some (ts, cs, ms'', md'') =>
                       Some (h_t ++ idl ++ ex ++ ts, h_c ++ zeros idl ++ co ++ cs, ms'', md'')
@@ -112,15 +120,15 @@ Fixpoint concat_chan (fx first : bool) (last : Q) (ms : option Q) (md : option m
   end.
 
 (* outer loop over the channels; min_step_size and pulse_mode are threaded through *)
-Fixpoint concat_all (fx : bool) (ms : option Q) (md : option mode) (chs : list (list pinstr))
+Fixpoint concat_all (fx : bool) (gtl : Q -> Q) (ms : option Q) (md : option mode) (chs : list (list pinstr))
   : option (list (list Q * list Q) * option Q * option mode) :=
   match chs with
   | [] => Some ([], ms, md)
   | c :: r =>
-      match concat_chan fx true 0 ms md c with
+      match concat_chan fx gtl true 0 ms md c with
       | None => None
       | Some (ts, cs, ms', md') =>
-          match concat_all fx ms' md' r with
+          match concat_all fx gtl ms' md' r with
           | None => None
           | Some (out, ms'', md'') => Some ((ts, cs) :: out, ms'', md'')
           end
@@ -157,9 +165,26 @@ Definition pad (ms : Q) (md : mode) (final : Q) (tc : list Q * list Q) : option 
       else Some (ts, cs)
   end.
 
+(* end time of one entry: start_time + (tlist if np.isscalar(tlist) else tlist[-1]) *)
+Definition entry_end (p : pinstr) : option Q :=
+  match p_wave p with
+  | Scalar d _ => Some (p_start p + d)
+  | Sampled ts _ => match last_opt ts with None => None | Some e => Some (p_start p + e) end
+  end.
+
+(* time_resolution = 1.0e-14 * max(end_times, default=0.0) *)
+Definition resolution (chs : list (list pinstr)) : option Q :=
+  match all_some (map entry_end (concat chs)) with
+  | None => None                                               (* tlist[-1] of an empty tlist *)
+  | Some ends => Some ((1 # 100000000000000) * match qmax_list ends with Some m => m | None => 0 end)
+  end.
+
 (* _concatenate_pulses *)
-Definition concatenate_pulses (fx : bool) (chs : list (list pinstr)) : option (list (list Q * list Q)) :=
-  match concat_all fx None None chs with
+Definition concatenate_pulses (fx gx : bool) (chs : list (list pinstr)) : option (list (list Q * list Q)) :=
+  match (if gx then resolution chs else Some 0) with
+  | None => None
+  | Some res =>
+  match concat_all fx (gap_tol gx res) None None chs with
   | None => None
   | Some (out, ms, md) =>
       match all_some (map (fun tc => last_opt (fst tc)) out) with
@@ -170,6 +195,7 @@ Definition concatenate_pulses (fx : bool) (chs : list (list pinstr)) : option (l
           | _, _, _ => None                                    (* np.max([]) raises *)
           end
       end
+  end
   end.
 
 (* ---- Instruction and compile -------------------------------------------------------------- *)
@@ -232,7 +258,7 @@ Definition build_channels (sil : list (Q * instr)) : option (list (nat * list pi
 (* compile, after the gate compilers have produced the instruction list.
    sched = None        : schedule_mode None/False
    sched = Some starts : start time of every instruction as returned by Scheduler.schedule *)
-Definition compile (fx : bool) (sched : option (list Q)) (il : list instr)
+Definition compile (fx gx : bool) (sched : option (list Q)) (il : list instr)
   : option (list (nat * (list Q * list Q))) :=
   match il with
   | [] => Some []                                               (* return None, None *)
@@ -247,7 +273,7 @@ Definition compile (fx : bool) (sched : option (list Q)) (il : list instr)
           match build_channels sil with
           | None => None
           | Some chs =>
-              match concatenate_pulses fx (map snd chs) with
+              match concatenate_pulses fx gx (map snd chs) with
               | None => None
               | Some out => Some (combine (map fst chs) out)
               end
@@ -343,13 +369,18 @@ Fixpoint chain_ord (last : Q) (l : list pinstr) : Prop :=
   | i :: r => wf_wave (p_wave i) /\ last <= p_start i /\ chain_ord (p_end i) r
   end.
 
-(* guard: every idle gap is either absent or larger than the code's tolerance 1e-6 * step_size *)
-Fixpoint gaps_ok (last : Q) (l : list pinstr) : Prop :=
+(* guard: every idle gap is either absent or larger than the threshold of the code's idle-gap test
+   (gtl = fun step => step * 1e-6 for the unchanged code, gtl = fun _ => time_resolution after the fix) *)
+Fixpoint gaps_ok (gtl : Q -> Q) (last : Q) (l : list pinstr) : Prop :=
   match l with
   | [] => True
-  | i :: r => (p_start i == last \/ step_of (p_wave i) * tol < p_start i - last)
-              /\ gaps_ok (p_end i) r
+  | i :: r => (p_start i == last \/ gtl (step_of (p_wave i)) < p_start i - last)
+              /\ gaps_ok gtl (p_end i) r
   end.
+
+(* the time resolution used by a successful compilation (0 when it is not defined) *)
+Definition res_of (chs : list (list pinstr)) : Q :=
+  match resolution chs with Some r => r | None => 0 end.
 
 (* guard under which the unchanged first-pulse test is right: when an instruction that is not the
    first of its channel is reached, the time elapsed on the channel is at least 1e-6 * its step *)
